@@ -1,6 +1,7 @@
 package props
 
 import (
+	"bufio"
 	"errors"
 	"fmt"
 	"io"
@@ -89,12 +90,23 @@ func runC06(c *sim.Ctx) *sim.Violation {
 	stream = append(stream, trailing...)
 	dataEOF := t.Bool(1, 2)
 	r := link.NewReader(c, stream, link.Mode{DataEOF: dataEOF})
+	// One run in four, the program reads through a bufio.Reader (as most real
+	// connection loops do); consumption is then the position in the stream:
+	// bytes the link handed out minus bytes still sitting in bufio's buffer.
+	var rd io.Reader = r
+	consumed := func() int { return r.Delivered }
+	if t.Bool(1, 4) {
+		br := bufio.NewReaderSize(r, []int{16, 512, 4096, 8192, 65536}[t.Int(5)])
+		rd = br
+		consumed = func() int { return r.Delivered - br.Buffered() }
+		c.Count("probe.read-through-bufio.Reader")
+	}
 	seqSig := ""
 	for k, f := range frames {
 		typ := typeName(f[0] >> 4)
-		before := r.Delivered
-		got := ReadOne(r)
-		drawn := r.Delivered - before
+		before := consumed()
+		got := ReadOne(rd)
+		drawn := consumed() - before
 		c.Ev("call", int64(k), int64(drawn), int64(len(f)))
 		if got.Kind == "panic" {
 			c.Count("skipped.panic-is-C04s-business")
@@ -125,12 +137,12 @@ func runC06(c *sim.Ctx) *sim.Violation {
 			return sim.V(fmt.Sprintf("C06/%s/packet-and-error", typ), "%s", desc())
 		}
 	}
-	if r.Delivered != len(stream)-len(trailing) {
-		return sim.V("C06/sequence/trailing-bytes-touched", "after %d calls for %d frames the link has handed out %d bytes, frames total %d",
-			len(frames), len(frames), r.Delivered, len(stream)-len(trailing))
+	if consumed() != len(stream)-len(trailing) {
+		return sim.V("C06/sequence/trailing-bytes-touched", "after %d calls for %d frames %d bytes of the stream were consumed, frames total %d",
+			len(frames), len(frames), consumed(), len(stream)-len(trailing))
 	}
 	if len(trailing) == 0 {
-		got := ReadOne(r)
+		got := ReadOne(rd)
 		if got.Kind != "error" || !errors.Is(got.Err, io.EOF) {
 			return sim.V("C06/sequence/no-io.EOF-after-last-frame", "after the last frame of the stream ReadPacket gave %s; want an error wrapping io.EOF", got)
 		}
